@@ -10,7 +10,7 @@ from ..refs import semver as ref
 
 ALPHABET = ["0", "1", "9", "a", "Z", "-", ".", "+", "v", "٣", "é", "\u212a", "\u017f"]   # incl. Kelvin sign and long s (case-fold to k / s)
 PREFIXES = ["1.2.3", "v0.0.9", "1.2.3-", "1.2.3+", "1.2.3-a.", "1.2.3-0.", "10.1.0-rc.1+", "1.2.3-a+", "0.0.", "1."]
-EDIT_CHARS = ALPHABET + ["\n", " ", "\x00", "１", "𝟙", "_", "A", "z", "5", "V", "\t", "²"]
+EDIT_CHARS = ALPHABET + ["\n", " ", "\x00", "１", "𝟙", "_", "A", "z", "5", "V", "\t", "²"] + list("=*~^<>,;:@#$%&()[]{}|\\/'\"`?!") + ["\r", "\x0b", "\x1f", "\x7f", "\u00a0", "\ufeff", "\u200b"]
 MINIMUMS = (20000, 200)
 BATCH = 20000
 
@@ -119,13 +119,7 @@ def work_check_cli(bins, strings):
         ok = "ok" in r
         if ok != parsed:
             bad.append(("semver-check-verdict-differs", "check says %s, parser says %s" % (ok, parsed), s, r))
-        elif ok:
-            txt = r["ok"]
-            want_disp = disp[i]["d"]
-            if ("Version: %s" % s) not in txt or "SemVer" not in txt:
-                bad.append(("semver-check-text", "unexpected report text", s, r))
-            elif want_disp != s and ("normalized: %s" % want_disp) not in txt:
-                bad.append(("semver-check-text", "normalised form %r missing from report" % want_disp, s, r))
+        # the statement asks for the same verdict only; the wording of the report is free
     return dict(n=n, bad=bad)
 
 
@@ -144,10 +138,6 @@ def work_check_binary(bins, strings):
         ok = r["exit"] == 0
         if ok != (bits[i] == "1"):
             bad.append(("semver-check-verdict-differs", "binary check exit %s, parser accepted=%s" % (r["exit"], bits[i]), s, r))
-        if ok and not r["out"].startswith("Version: "):
-            bad.append(("semver-check-text", "unexpected stdout", s, r))
-        if not ok and r["out"]:
-            bad.append(("stdout-on-failure", "check failed but printed to stdout", s, r))
     return dict(n=n, bad=bad)
 
 
@@ -240,6 +230,9 @@ def run(ctx):
     edges = numeric_edges()
     valid0 = [s for s in rand if ref.parse(s, allow_v=False) is not None][:300]
     edges += [pre + s for s in valid0 for pre in ("v", "vv", "V", "vV", "v v")]
+    # affixes around valid versions, judged against the grammar (not only check-versus-parser): exactly one lower-case `v` is optional
+    edges += [pre + s for s in valid0[:150] for pre in ("vvv", "v ", " v", "v-", "version", "v.", "=", "==", "v\t", "~", "^", ">=", "\ufeff", "\u00a0", "r", "ver")]
+    edges += [s + suf for s in valid0[:150] for suf in ("\n", " ", "v", ".", "+", "-", "\r", "\r\n", "\t", ".x", ".*", ",", ";", "\u00a0", "\x00"[:0] + "\x0b")]
     lists = core.split_even(rand, 16) + [edges]
     res2 = core.pmap(work_list, [(ctx.bins, l) for l in lists])
     for r in res2:
